@@ -31,7 +31,7 @@ HTML_VOID = {"area", "base", "br", "col", "embed", "hr", "img", "input", "link",
 
 
 def _unclone(x):
-    while isinstance(x, tuple) and x and x[0] == "call" and (x[1].endswith("Clone>::clone") or x[1].endswith("::as_str") or x[1].endswith("Deref>::deref")) and x[2]:
+    while isinstance(x, tuple) and x and x[0] == "call" and (x[1].endswith("Clone>::clone") or x[1].rsplit("::", 1)[-1] in ("as_str", "deref", "as_deref", "as_ref", "as_mut", "borrow", "to_string", "to_owned", "as_deref_mut")) and x[2]:
         x = x[2][0]
     return x
 
@@ -111,18 +111,20 @@ def _selector_state(p, adt):
         elif a[0] == "call" and a[1] in ("std::option::Option::is_some", "std::option::Option::is_none") and _field_of(a[2][0]) == "css_selector":
             some = (v == 1) == a[1].endswith("is_some")
             st = (st or "some") if some else "none"
-        elif a[0] == "call" and a[1].endswith("String::is_empty") and mentions(a[2][0], lambda y: y[0] == "field" and y[2] == "css_selector"):
+        elif a[0] == "call" and a[1].endswith("::is_empty") and mentions(a[2][0], lambda y: y[0] == "field" and y[2] == "css_selector"):
             st = "empty" if v == 1 else ("nonempty" if st in (None, "some", "nonempty") else st)
         elif a[0] == "call" and a[1] == EVAL:
             st = "match" if v == 1 else "nomatch"
     return st
 
 
-def _pieces(p, f, out, data_param=2):
+def _pieces(p, f, out, data_param=2, upto=None):
     """what a returned text is made of, in order: 'data', 'content', 'append_child(data,content)', ... or None"""
     out = _unclone(out)
     if out == ("param", data_param):
         return ("data",)
+    if out[0] != "local" and mentions(out, lambda y: y[0] == "field" and y[2] == "buffer" and (y[3] or "").endswith("BufferLink")):
+        return ("buffer",)
     if _field_of(out) == "content":
         return ("content",)
     # through `?`
@@ -136,10 +138,12 @@ def _pieces(p, f, out, data_param=2):
         l = out[1]
         seq = []
         for e in p.events:
+            if upto is not None and e is upto:
+                break
             if e[0] in ("init", "set") and e[1] == l:
-                seq = list(_pieces(p, f, e[3], data_param) or ("?",))
+                seq = list(_pieces(p, f, e[3], data_param, upto) or ("?",)) if e[3] != out else seq
             elif e[0] == "call" and e[1] == "std::string::String::push_str" and e[2][0] == out:
-                seq += list(_pieces(p, f, e[2][1], data_param) or ("?",))
+                seq += list(_pieces(p, f, e[2][1], data_param, upto) or ("?",))
         return tuple(seq) if seq else None
     return None
 
@@ -431,6 +435,24 @@ def _kinds(p):
     return ks
 
 
+def _name_test(p, fld, param):
+    """outcome of the comparison of the awaited name `self.<fld>` with the tag name (parameter `param`) on this path:
+    True / False / None (not compared)"""
+    res = None
+    for a, v in p.conds:
+        if a[0] == "call" and "PartialEq" in a[1] and len(a[2]) == 2:
+            l, rr = a[2]
+            fl = lambda y: y[0] == "field" and y[2] == fld and y[1] == ("param", 1)
+            pr = lambda y: y == ("param", param)
+            if (mentions(l, fl) and mentions(rr, pr)) or (mentions(rr, fl) and mentions(l, pr)):
+                res = bool(v) if a[1].endswith("::eq") else not bool(v)
+        elif a[0] == "call" and a[1] == "std::option::Option::is_some" and _field_of(a[2][0]) == fld and v == 0:
+            return False
+        elif a[0] == "disc" and _field_of(a[1]) == fld and v == "None":
+            return False
+    return res
+
+
 def _fold(x):
     """constant-fold the integer expressions the engine leaves symbolic (a counter that starts at a constant)"""
     if not isinstance(x, tuple) or not x:
@@ -467,15 +489,13 @@ def r15_7(ctx):
         for p in Sym(f, copies=True).paths():
             if p.end[0] != "ret" or not _feasible(p):
                 continue
-            some = [v for a, v in p.conds if a[0] == "call" and a[1] == "std::option::Option::is_some" and _field_of(a[2][0]) == "enter"]
-            disc = [v for a, v in p.conds if a[0] == "disc" and _field_of(a[1]) == "enter"]
-            eq = [v if "::eq" in a[1] else 1 - v for a, v in p.conds if a[0] == "call" and "PartialEq" in a[1] and mentions(a[2][0], lambda y: y[0] == "field" and y[2] == "enter") and _unclone(a[2][1]) == ("param", 2)]
-            awaited = bool(eq and eq[0] == 1 and ((some and some[0] == 1) or (disc and disc[0] == "Some") or (not some and not disc)))
+            awaited = _name_test(p, "enter", 2) is True
             ent = [e for e in p.events if e[0] == "call" and e[1] == VIS + "::enter"]
             if bool(ent) != awaited:
                 bad.append("visitor.enter %s although the awaited name %s the tag" % ("called" if ent else "not called", "equals" if awaited else "differs from"))
                 continue
-            opened = any(e[0] == "write" and e[1] == ("field", ("param", 1), "current_buffer", HF) and mentions(e[2], lambda y: y[0] == "agg" and y[1].endswith("BufferLink")) for e in p.events)
+            opened = any(e[0] == "write" and e[1] == ("field", ("param", 1), "current_buffer", HF) and mentions(e[2], lambda y: y[0] == "agg" and y[1].endswith("BufferLink")) for e in p.events) \
+                or mentions(p.end[1], lambda y: y[0] == "agg" and (y[1] or "").endswith("BufferLink"))
             asked = [v for a, v in p.conds if a[0] == "field" and a[2] == "2" and a[1][0] == "call" and a[1][1] == VIS + "::enter"]
             if ent:
                 c = ent[0][3]
@@ -495,13 +515,13 @@ def r15_7(ctx):
         # the opened link remembers the tag name and chains the previous buffer
         okl = False
         for p in Sym(f, copies=True).paths():
-            for e in p.events:
-                if e[0] == "write" and e[1] == ("field", ("param", 1), "current_buffer", HF):
+            for e in list(p.events) + ([("write", None, p.end[1])] if p.end[0] == "ret" else []):
+                if e[0] == "write" and (e[1] is None or e[1] == ("field", ("param", 1), "current_buffer", HF)):
                     lk = []
-                    mentions(e[2], lambda y: lk.append(y) if (y[0] == "agg" and y[1].endswith("BufferLink")) else False)
+                    mentions(e[2], lambda y: lk.append(y) if (y[0] == "agg" and (y[1] or "").endswith("BufferLink")) else False)
                     if lk:
                         d = dict(lk[0][3])
-                        okl = _unclone(d.get("tag_name")) == ("param", 2) and mentions(d.get("previous"), lambda y: y[0] == "field" and y[2] == "current_buffer")
+                        okl = mentions(d.get("tag_name"), lambda y: y == ("param", 2)) and mentions(d.get("previous"), lambda y: y[0] == "field" and y[2] == "current_buffer")
         r.ob("wiring:buffer-link", okl, f.site, "a new buffer remembers the tag that opened it and chains the buffer that was current")
 
         g = F.method(HF, "on_end_tag_token")
@@ -513,16 +533,21 @@ def r15_7(ctx):
                 continue
             if p.end[1][0] == "agg" and p.end[1][2] == "Err":
                 continue
-            eq = [v if "::eq" in a[1] else 1 - v for a, v in p.conds if a[0] == "call" and "PartialEq" in a[1] and mentions(a[2][0], lambda y: y[0] == "field" and y[2] == "leave") and _unclone(a[2][1]) == ("param", 2)]
-            some = [v for a, v in p.conds if a[0] == "call" and a[1] == "std::option::Option::is_some" and _field_of(a[2][0]) == "leave"]
-            awaited = bool(eq and eq[0] == 1 and (not some or some[0] == 1))
+            awaited = _name_test(p, "leave", 2) is True
             lv = [e for e in p.events if e[0] == "call" and e[1] == VIS + "::leave"]
             if bool(lv) != awaited:
                 bad.append("visitor.leave %s although the awaited name %s the tag" % ("called" if lv else "not called", "equals" if awaited else "differs from"))
                 continue
-            same = [v if "::eq" in a[1] else 1 - v for a, v in p.conds if a[0] == "call" and "PartialEq" in a[1] and mentions(a[2][0], lambda y: y[0] == "field" and y[2] == "tag_name") and _unclone(a[2][1]) == ("param", 2)]
-            hasb = [v for a, v in p.conds if a[0] == "call" and a[1] == "std::option::Option::is_some" and _field_of(a[2][0]) == "current_buffer"]
-            closing = bool(same and same[0] == 1 and (not hasb or hasb[0] == 1))
+            same = []
+            for a, v in p.conds:
+                if a[0] == "call" and "PartialEq" in a[1] and len(a[2]) == 2:
+                    tn = lambda y: y[0] == "field" and y[2] == "tag_name"
+                    pr = lambda y: y == ("param", 2)
+                    if (mentions(a[2][0], tn) and mentions(a[2][1], pr)) or (mentions(a[2][1], tn) and mentions(a[2][0], pr)):
+                        same.append(bool(v) if a[1].endswith("::eq") else not bool(v))
+            hasb = [(v == 1 if a[0] == "call" else v == "Some") for a, v in p.conds if (a[0] == "call" and a[1] == "std::option::Option::is_some" and _field_of(a[2][0]) == "current_buffer") or (a[0] == "disc" and _field_of(a[1]) == "current_buffer")]
+            nob = bool(hasb) and not hasb[0]  # (the first look: the test is repeated after the visitor ran)
+            closing = bool(same and same[0] and not nob)
             if lv:
                 c = lv[0][3]
                 w = {e[1][2]: e[2] for e in p.events if e[0] == "write" and e[1][0] == "field" and e[1][1] == ("param", 1)}
@@ -531,19 +556,10 @@ def r15_7(ctx):
                     bad.append("the awaited names are not taken from the visitor's answer in (enter, leave) order")
                 # what the visitor sees: the buffered element followed by the end tag when this tag closes the buffer
                 arg = lv[0][2][1]
-                if arg[0] == "local":
-                    pcs = []
-                    for e in p.events:
-                        if e[0] in ("init", "set") and e[1] == arg[1]:
-                            v = e[3]
-                            pcs = ["buffer"] if mentions(v, lambda y: y[0] == "field" and y[2] == "buffer") else ["data"] if _unclone(v) == ("param", 3) else ["?"]
-                        elif e[0] == "call" and e[1] == "std::string::String::push_str" and e[2][0] == arg:
-                            pcs.append("data" if _unclone(e[2][1]) == ("param", 3) else "?")
-                        elif e is lv[0]:
-                            break
-                    wantp = ["buffer", "data"] if closing else ["data"]
-                    if pcs != wantp:
-                        bad.append("leave receives %s (expected %s, closing the buffer = %s)" % (pcs, wantp, closing))
+                pcs = list(_pieces(p, g, arg, 3, upto=lv[0]) or ("?",))
+                wantp = ["buffer", "data"] if closing else ["data"]
+                if pcs != wantp:
+                    bad.append("leave receives %s (expected %s, closing the buffer = %s)" % (pcs, wantp, closing))
             rows[(awaited, closing)] = True
         visitor_callers_ob(F, r, "wiring:")
         r.ob("wiring:on_end_tag_token", not bad and len(rows) >= 3, g.site, "leave is called exactly on the awaited name with the buffered element followed by the end tag; awaited names := (answer.0, answer.1): %s" % sorted(rows, key=str) if not bad else "; ".join(sorted(set(bad))[:3]))
